@@ -133,6 +133,11 @@ def _loop (ctx, repo, f, L):
       good = any(w in fs for w in want) or norm(v) in ('%s + %s' % (L.cur, L.wlen), '%s + %s' % (L.wlen, L.cur)) or framing.advance_tied(L, g, n, norm(v))
       ctx.ob('R-AGREE', f, "`%s` advances the cursor by exactly the declared length" % n.text(50), good, "asserted %s" % want[0] if good else
              "no dominating fact ties the new cursor `%s` to cursor + %s (facts %s)" % (norm(v), L.wlen, fs), (mod, n.ast), 'D4')
+  if getattr(L, 'wlen_code', None) is not None:
+    bo_, code_ = L.wlen_code
+    ctx.ob('R-LAYOUT', f, "the declared length is read as an unsigned 16-bit big-endian value", bo_ in ('!', '>') and code_ == 'H', "struct code %s%s" % (bo_, code_) if (bo_ in ('!', '>') and code_ == 'H') else
+           "the header's length field is unpacked with struct code `%s%s`%s: a message of 32768 bytes or more is seen with a negative length and treated as malformed - the connection is shut down and nothing behind it is answered"
+           % (bo_, code_, " (signed)" if code_ == 'h' else ""), (mod, L.wlen_stmt), 'D2')
   # every path decode -> loop head advances exactly once
   for n, c in L.decode:
     iv = g.interval(lambda x: x in [a[0] for a in L.advance], start=n, stop=L.head)
@@ -278,6 +283,20 @@ def _decoder_table (ctx, repo):
     good = outs == {('dec0', 'dec1', 'dec2')}
     ctx.ob('R-REG', f, "decoder table holds the decoder of type t at index t for every registered type", good, "registry {0,1,2} -> [dec0, dec1, dec2]" if good else
            "for a registry with types 0, 1, 2 the table is %s: a message of the missing/shifted type is framed but cannot be decoded (IndexError / wrong class) and everything behind it in the buffer is lost" % sorted(outs), f, 'D3')
+
+  # every caller gets a table of its own: the connections patch their tables (nicira replaces the vendor decoder in the controller's,
+  # a late registration shows up in tables built afterwards) - a table kept in a module global is one list shared by both sides
+  gl_ = set()
+  for n_ in ast.walk(f.node):
+    if isinstance(n_, (ast.Global, ast.Nonlocal)): gl_.update(n_.names)
+  shared = []
+  for r_ in q.returns_of(f.node):
+    v_ = r_.value
+    if isinstance(v_, ast.Name) and (v_.id in gl_ or (v_.id in um.assigns and not [1 for t_, vv_, st_, k_ in q.stores_in(f.node) if isinstance(t_, ast.Name) and t_.id == v_.id])): shared.append(r_)
+    elif isinstance(v_, ast.Attribute): shared.append(r_)
+  ctx.ob('R-OWN', f, "every call builds a new decoder table", not shared, "the returned list is created in the call" if not shared else
+         "`%s` hands out an object kept outside the call (a module global): the controller's table and every switch-side connection's table are the same list - when nicira installs its vendor decoder in the controller's "
+         "table the software switch starts decoding vendor messages with it as well, and a type registered later is missing from every table handed out afterwards" % norm(shared[0]), (um, shared[0]) if shared else f, 'D3')
 
 def _caller_contract (ctx, repo, f, L):
   """D8: a read that merely found no complete message yet must not look like a failure to whoever called it: the value
